@@ -4,6 +4,7 @@ use crate::Args;
 pub mod c10;
 pub mod c11;
 pub mod c12;
+pub mod c16;
 pub mod c19;
 pub mod smoke;
 
@@ -14,6 +15,7 @@ pub fn run(a: &Args) -> Report {
         "c10" => c10::run(a),
         "c11" => c11::run(a),
         "c12" => c12::run(a),
+        "c16" => c16::run(a),
         other => {
             let mut r = Report::new(other);
             r.inconclusive(&format!("unknown property {other}"));
